@@ -147,6 +147,8 @@ pub struct Model {
     pub expected_optional: BTreeSet<usize>,
     /// nodes that became necessary during the current round
     pub transient: BTreeSet<Hid>,
+    /// nodes that became unnecessary during the propagation phase of the current round
+    pub lost_necessity: BTreeSet<Hid>,
     pub unobserved_writes: BTreeSet<Hid>,
     pub was_necessary_ever: BTreeSet<Hid>,
     pub dropped_var_since_round: bool,
@@ -193,6 +195,7 @@ impl Model {
             expected_notifs: BTreeMap::new(),
             expected_optional: BTreeSet::new(),
             transient: BTreeSet::new(),
+            lost_necessity: BTreeSet::new(),
             unobserved_writes: BTreeSet::new(),
             was_necessary_ever: BTreeSet::new(),
             dropped_var_since_round: false,
@@ -364,19 +367,25 @@ impl Model {
     }
 
     /// Is bind `b` kept necessary by an observer of its own (and so are all binds enclosing it)?
-    /// `without` = an observer to disregard.
-    pub fn pinned(&self, b: Hid, without: Option<usize>) -> bool {
-        let direct = self
-            .obs
-            .iter()
-            .enumerate()
-            .any(|(i, o)| o.hid == b && Some(i) != without && matches!(o.state, OState::Created | OState::InUse));
+    /// `without` = an observer to disregard. `before` = the observer on whose behalf we ask: new
+    /// observers are linked in creation order at the start of the next stabilise, so an observer
+    /// that is itself still waiting to be linked only pins the bind for observers created after it.
+    pub fn pinned(&self, b: Hid, without: Option<usize>, before: Option<usize>) -> bool {
+        let direct = self.obs.iter().enumerate().any(|(i, o)| {
+            o.hid == b
+                && Some(i) != without
+                && match o.state {
+                    OState::InUse => true,
+                    OState::Created => before.map_or(true, |x| i < x),
+                    _ => false,
+                }
+        });
         if !direct || self.nodes[b].invalid {
             return false;
         }
         match self.nodes[b].scope {
             None => true,
-            Some((ob, og)) => self.nodes[ob].gen == Some(og) && self.pinned(ob, without),
+            Some((ob, og)) => self.nodes[ob].gen == Some(og) && self.pinned(ob, without, before),
         }
     }
 
@@ -392,7 +401,7 @@ impl Model {
                 if n.invalid {
                     continue;
                 }
-                if self.nodes[b].gen != Some(g) || !self.pinned(b, None) {
+                if self.nodes[b].gen != Some(g) || !self.pinned(b, None, None) {
                     return false;
                 }
             }
@@ -412,7 +421,7 @@ impl Model {
             for m in self.cone(std::iter::once(o.hid)) {
                 let n = &self.nodes[m];
                 if let Some((b, g)) = n.scope {
-                    if !n.invalid && self.nodes[b].gen == Some(g) && !self.pinned(b, Some(oid)) {
+                    if !n.invalid && self.nodes[b].gen == Some(g) && !self.pinned(b, Some(oid), Some(i)) {
                         return false;
                     }
                 }
